@@ -19,10 +19,11 @@ import TinsModel.Ack.Model
   * callbacks are an event trace; the harness installs every callback, so "callback set" tests are `true`;
   * what the application does inside the new-stream callback is part of the configuration (`Cfg`): switch auto-cleanup
     off, `Flow::enable_ack_tracking` per flow, `AckTracker::use_sack` (for streams attached mid-way, whose trackers
-    are default-constructed with SACK off), `Stream::ignore_client_data` / `ignore_server_data`;
+    are default-constructed with SACK off), `Stream::ignore_client_data` / `ignore_server_data`,
+    `Stream::enable_recovery_mode`;
   * `DEFAULT_MAX_SACKED_INTERVALS` is a parameter (`Cfg.maxSacked`; the check reads the literal from the source);
   * a SACK option whose data is not a whole number of 32-bit edges is skipped by the flow (KF-C07-4, after `fix: a SACK
-    option that cannot be decoded made Flow::process_packet throw malformed_option ...`); recovery mode is not enabled.
+    option that cannot be decoded made Flow::process_packet throw malformed_option ...`).
 -/
 namespace Tins.SF
 open Tins Tins.DT
@@ -99,6 +100,9 @@ structure Flow where
   ackTracking : Bool := false               -- `flags_.ack_tracking`
   ignoreData : Bool := false                -- `flags_.ignore_data_packets`
   ackTr : Ack.Tracker := Ack.Tracker.default   -- `ack_tracker_` (a member whether or not tracking is enabled)
+  /-- recovery mode: `recovery_sequence_number_end` of the `Stream::*_recovery_mode_handler` bound to this direction's
+      out-of-order callback (`none`: no such handler installed, or it has removed itself) -/
+  recEnd : Option Nat := none
 
 /-- `Flow::Flow(dest_address, dest_port, sequence_number)` + `initialize()` -/
 def Flow.init (v6 : Bool) (dst dport seq : Nat) : Flow :=
@@ -131,6 +135,19 @@ def Flow.trackAck (f : Flow) (p : Pkt) : Flow :=
 /-- the part of `Flow::process_packet` that every TCP segment goes through: `update_state`, then the ACK tracker -/
 def Flow.pre (f : Flow) (p : Pkt) : Flow := (f.updateState p).trackAck p
 
+/-- `Stream::client_recovery_mode_handler` / `server_recovery_mode_handler` with `Stream::recovery_mode_handler`, run (after
+    the application's own out-of-order callback) for an out-of-order segment at `seq`: plain `uint32_t` comparisons -/
+def Flow.recover (f : Flow) (seq e : Nat) : Flow :=
+  { f with tr := if seq > f.tr.seq ∧ seq ≤ e then advanceSequence f.tr seq else f.tr,
+           recEnd := if e > seq then some e else none }
+
+/-- the flow after the out-of-order callback of `process_packet`: in recovery mode the handler bound to the direction runs
+    (for an out-of-order segment) and may advance the sequence number before `process_payload` sees the segment -/
+def Flow.afterOoo (f1 : Flow) (p : Pkt) (ooo : Bool) : Flow :=
+  match ooo, f1.recEnd with
+  | true, some e => f1.recover p.dataSeq e
+  | _, _ => f1
+
 /-- `Flow::process_packet`: the new flow, the out-of-order callback arguments (if it fires) and whether the
     data callback fires -/
 def Flow.processPacket (f : Flow) (p : Pkt) : Flow × Option (Nat × Bytes) × Bool :=
@@ -143,8 +160,10 @@ def Flow.processPacket (f : Flow) (p : Pkt) : Flow × Option (Nat × Bytes) × B
     let chunkEnd := wrap32 (p.dataSeq + d.length)
     let cur := f1.tr.seq
     let ooo := if seqCompare chunkEnd cur < 0 ∨ seqCompare p.dataSeq cur > 0 then some (p.dataSeq, d) else none
-    let r := processPayload f1.tr p.dataSeq d
-    ({ f1 with tr := r.1 }, ooo, r.2)
+    -- the out-of-order callback runs before `process_payload`
+    let f2 := f1.afterOoo p ooo.isSome
+    let r := processPayload f2.tr p.dataSeq d
+    ({ f2 with tr := r.1 }, ooo, r.2)
 
 /-! ### Stream -/
 
@@ -162,11 +181,12 @@ structure Cfg where
   ignC : Bool := false       -- `ignore_client_data()`
   ignS : Bool := false       -- `ignore_server_data()`
   cbSet : Bool := true       -- a new-stream callback is installed (`on_new_connection_`); `false`: see `stepX`
+  recovery : Option Nat := none   -- `enable_recovery_mode(window)` (after the out-of-order callbacks have been installed)
 deriving Repr
 
 /-- the stream as its constructor leaves it: what the new-stream callback would have configured is absent -/
 def Cfg.raw (cfg : Cfg) : Cfg :=
-  { cfg with acl := true, ackC := false, ackS := false, useSack := false, ignC := false, ignS := false }
+  { cfg with acl := true, ackC := false, ackS := false, useSack := false, ignC := false, ignS := false, recovery := none }
 
 structure Stream where
   client : Flow
@@ -189,13 +209,15 @@ def Stream.sid (s : Stream) : Sid :=
   ⟨s.server.v6, s.server.dst, s.server.dport, s.client.dst, s.client.dport⟩
 
 /-- what the new-stream callback does to one flow -/
-def Flow.configure (f : Flow) (ack useSack ign : Bool) : Flow :=
-  { f with ackTracking := ack, ignoreData := ign, ackTr := { f.ackTr with useSack := f.ackTr.useSack || useSack } }
+def Flow.configure (f : Flow) (ack useSack ign : Bool) (rec : Option Nat) : Flow :=
+  { f with ackTracking := ack, ignoreData := ign, ackTr := { f.ackTr with useSack := f.ackTr.useSack || useSack },
+           -- `flow.sequence_number() + recovery_window`
+           recEnd := rec.map (fun w => wrap32 (f.tr.seq + w)) }
 
 /-- `Stream::Stream(packet, ts)` (`extract_client_flow`, `extract_server_flow`) followed by the new-stream callback -/
 def Stream.ofPacket (cfg : Cfg) (p : Pkt) : Stream :=
-  { client := (Flow.init p.v6 p.dst p.dport p.dataSeq).configure cfg.ackC cfg.useSack cfg.ignC,
-    server := (Flow.init p.v6 p.src p.sport p.ack).configure cfg.ackS cfg.useSack cfg.ignS,
+  { client := (Flow.init p.v6 p.dst p.dport p.dataSeq).configure cfg.ackC cfg.useSack cfg.ignC cfg.recovery,
+    server := (Flow.init p.v6 p.src p.sport p.ack).configure cfg.ackS cfg.useSack cfg.ignS cfg.recovery,
     createTime := p.ts, lastSeen := p.ts, isPartial := !p.syn, acl := cfg.acl }
 
 /-- `Stream::is_finished` -/
